@@ -154,6 +154,12 @@ func ValidateCounterpartyID(id string, protocol ProtocolID) error {
 		return errors.New("counterparty ID cannot be empty string")
 	}
 
+	// NOTE: counterparty IDs are used as non-terminal parts of collections keys, which are
+	// null-terminated and cannot be encoded if they contain the null character.
+	if strings.ContainsRune(id, 0) {
+		return errors.New("counterparty ID cannot contain the null character")
+	}
+
 	if len(id) > MaxCounterpartyIDLength {
 		return fmt.Errorf(
 			"counterparty ID cannot contain more than %d characters",
